@@ -75,6 +75,16 @@ CHECKS['C08'] = dict(
     design='4 (C08)',
     technique='Coq lemmas on the creation gate of the merge loop + exhaustive flag correspondence + sampled merge correspondence; path-existence and command-line oracles for replays')
 
+CHECKS['C16'] = dict(
+    text='Machine-checked: C16_append (for every older tree and target path: the operator hands over the very node found at the path with its elements followed by the new ones, '
+         'in order, content unchanged, and detaches it), C16_append_missing / C16_append_nonlist (failure), C16_extend_fallback (nothing to extend: a plain list, older tree untouched), '
+         'C16_prev (the entire previous subtree - the node get_node finds, not another element: what defect D14 violated - is moved), C16_detach_frame (detaching a mapping key removes '
+         'exactly that key). The premerge state-passing and the subsequent merge are tied by sampled correspondence on operator histories. Partial: the end-to-end statement '
+         '"result at p = L0 ++ L and every other path keeps its value" for whole builds is decided by the correspondence plus the scenario oracle; targets reached through a list index are '
+         'a recorded known finding (D15).',
+    design='4 (C16), 6 (D14, D15)',
+    technique='Coq lemmas on remove_node / extend_node / on_premerge; sampled vm_compute correspondence of premerge+merge; scenario oracle (existing/missing/non-list targets, two operators, dotted keys) for replays')
+
 NOT_APPLICABLE = {}
 
 
